@@ -4,7 +4,10 @@ Pipeline: C18_Gen / C18_GenRand (TLC: enumerate blade pairs / triples / unary
 inputs / multi-term homogeneous multivectors / small and random multivectors /
 construction recipes with numeric and expression-tree coefficients / histories on one
 object (operands observed after every step, then ==/hash/bool/get_pure_grade/inv of
-the used objects against never used twins) / random operator programs, and model check the M-layer axioms and "bitmap algorithm refines the
+the used objects against never used twins) / space constructions (kind spc: Space(n),
+Space(names), get_euclidean_space, MultiVector(numpy vector), explicit metric as object /
+integer / Fraction array, operands with coefficients a float cannot hold: exact values AND
+exact kinds of number of every result) / random operator programs, and model check the M-layer axioms and "bitmap algorithm refines the
 meaning") -> drive (real Space / MultiVector objects) -> C18_Judge (TLC judges
 every recorded result against the index-list blade algebra of C18_Clifford).
 
@@ -871,7 +874,11 @@ def run(tier, seed, out):
                 "==/hash/bool with numeric and with expression-tree coefficients (twins built separately), histories on one "
                 "object (kind hist: a, b used as operands of 1-2 steps - sums with each other and with bare scalars, "
                 "products, unary operations, comparisons - stored data observed after every step, then ==/!=/hash/bool/"
-                "get_pure_grade/inv of the used objects against never used twins), and draws random multivectors / operator programs "
+                "get_pure_grade/inv of the used objects against never used twins), space constructions (kind spc: the way "
+                "the space is built - Space(n), Space(names), get_euclidean_space(n), MultiVector(numpy vector), explicit "
+                "diagonal metric as object / int64 / Fraction array or without a basis - x pairs of basis blades and multi-term "
+                "multivectors with coefficients such as 1/3, 1/7, -5/7, 2, -3: six products both ways, norm_squared, dual, "
+                "square, inverse, the metric entries, each by exact value and by kind of number), and draws random multivectors / operator programs "
                 "with -simulate (C18_GenRand, seeded); one case = one record judged by C18_Judge clause by "
                 "clause; non-trivial = at least one operand of grade >= 1 (pairs: grades sum >= 2); distinct "
                 "by canonical JSON digest of the case")
@@ -887,6 +894,10 @@ def run(tier, seed, out):
         "points (x+y / y+x) is not decided (skipped); its symmetry, negation and hash consistency are",
         "a bitmap-keyed data dict with an explicit zero coefficient is ill-formed input: its ==/hash/bool "
         "clauses are skipped",
+        "exact operands (int, Fraction) over a space whose metric entries are exact give exact results: a float "
+        "coefficient in a product / norm_squared / dual / power (and in inv() of an all-Fraction multivector) fails the "
+        "clause exact-kind; a recorded float whose exact value is beyond the bounds of the model fails the value clause "
+        "when the expected value is within them (kind spc only; int/int in inv() is Python's true division and is not judged)",
         "operands are values: an operation must leave the stored coefficient data of its operands denoting the same "
         "multivector and without new explicitly stored zeros (these are what ==, hash, bool, get_pure_grade, inv "
         "of the class read)",
